@@ -291,6 +291,48 @@ def check(ctx):
     asked = [c for c in ast.walk(oo.node) if isinstance(c, ast.Call) and dotted(c.func) == "get_interfaces"]
     ctx.check(len(asked) == 1 and asked[0].args and norm(asked[0].args[0]) == "cls", "C19.R16", f"{oo.qualname}:get_interfaces", None, "the object builder does not ask for the interfaces of the visited class", oo, asked[0] if asked else oo.node, detail="get_interfaces(cls)")
 
+    # ---------------- R17: ID literals and ID variables are decoded alike
+    ctx.rule("C19.R17", "id_encoding: the custom ID scalar decodes an ID written in the query (parse_literal) with the same decoder as an ID passed by variable (parse_value)", floor=1)
+    gs = model.func(f"{GQL}.graphql_schema")
+    scal = [c for c in ast.walk(gs.node) if isinstance(c, ast.Call) and (dotted(c.func) or "").endswith("GraphQLScalarType") and any(k.arg == "name" and norm(k.value) == "'ID'" for k in c.keywords)]
+    ctx.require(len(scal) == 1, "graphql_schema: construction of the custom ID scalar not found")
+    kw17 = {k.arg: k.value for k in scal[0].keywords}
+    pv, pl = kw17.get("parse_value"), kw17.get("parse_literal")
+    decodes_value = pv is not None and "id_deserializer" in norm(pv)
+    lit_ok = pl is None
+    if pl is not None:
+        texts = [norm(pl)]
+        if isinstance(pl, ast.Name):
+            for n in ast.walk(gs.node):
+                if isinstance(n, ast.FunctionDef) and n.name == pl.id:
+                    texts.append(norm(n))
+                if isinstance(n, ast.Assign) and norm(n.targets[0]) == pl.id:
+                    texts.append(norm(n.value))
+        lit_ok = any("id_deserializer" in t for t in texts)
+    ctx.check((not decodes_value) or lit_ok, "C19.R17", f"{gs.qualname}:ID.parse_literal", None,
+              f"the ID scalar decodes variables with id_deserializer but parses literals with `{norm(pl) if pl is not None else '?'}`: `{{node(id: \"<encoded>\")}}` hands the still encoded string to the deserializer of the ID type (\"badly formed hexadecimal UUID string\") while the same value passed as $id works",
+              gs, scal[0], detail="parse_literal applies id_deserializer too")
+
+    # ---------------- R18: values inside a GraphQL scalar are fully serialized
+    ctx.rule("C19.R18", "resolver results are serialized partially (objects are left to GraphQL, which resolves their fields); a mapping is published as a (JSON) scalar, whose content GraphQL does not resolve: objects inside it must be serialized completely", floor=1)
+    pv_cls = model.cls("apischema.graphql.resolvers.PartialSerializationMethodVisitor")
+    obj_identity = "object" in pv_cls.methods and "IDENTITY_METHOD" in norm(pv_cls.methods["object"].node)
+    om_ = model.func(f"{GQL}.SchemaBuilder.mapping") if f"{GQL}.SchemaBuilder.mapping" in model.functions else None
+    mapping_is_scalar = om_ is not None and "GraphQLScalarType" in norm(om_.node)
+    ctx.check(not (obj_identity and mapping_is_scalar) or "mapping" in pv_cls.methods, "C19.R18", f"{pv_cls.qualname}:mapping", None,
+              "PartialSerializationMethodVisitor keeps objects as they are everywhere, also inside a mapping, which the schema publishes as a scalar: `def d() -> Dict[str, Foo]` executes to data {'d': {'x': Foo(a=1)}} - the dataclass instance itself, where serialize gives {'x': {'a': 1}}",
+              pv_cls.methods.get("object"), pv_cls.methods["object"].node if "object" in pv_cls.methods else None, detail="mapping() overridden to serialize the values completely")
+
+    # ---------------- R19: the concrete type of an instance of an abstract type
+    ctx.rule("C19.R19", "object types are recognised at run time by is_type_of; when a class and one of its subclasses are both object types of an interface / union, the instance of the subclass must resolve to the subclass", floor=1)
+    oo19 = model.func(f"{GQL}.OutputSchemaBuilder.object")
+    ito = [k.value for c in ast.walk(oo19.node) if isinstance(c, ast.Call) for k in c.keywords if k.arg == "is_type_of"]
+    ctx.require(len(ito) >= 1, "OutputSchemaBuilder.object: is_type_of not found")
+    plain_isinstance = all(isinstance(v, ast.Lambda) and isinstance(v.body, ast.Call) and dotted(v.body.func) == "isinstance" for v in ito)
+    ctx.check(not plain_isinstance, "C19.R19", f"{oo19.qualname}:is_type_of", None,
+              "`is_type_of=lambda obj, _: isinstance(obj, cls)` is also true for the instances of the subclasses: with User(Entity) and Admin(User) both in the schema, a resolver typed Entity returning an Admin is resolved to the first possible type that matches - `__typename: 'User'`, the fields of `... on Admin` are dropped",
+              oo19, ito[0], detail="most derived registered class wins")
+
     # ---------------- R14: the error handler covers the point where the resolver's exception is raised
     ctx.rule("C19.R14", "the try block applying a resolver's error_handler covers the execution of the resolver, also when it is a coroutine function", floor=1)
     rr_ = model.func("apischema.graphql.resolvers.resolver_resolve")
@@ -373,6 +415,7 @@ def _assigns_optional(st) -> bool:
 
 
 def mutants(mb):
+    mb.add_text("id-literal-not-decoded", "apischema/graphql/schema.py", "            parse_literal=parse_id_literal,\n", "            parse_literal=graphql.GraphQLID.parse_literal,\n", "C19.R17", "parse_literal")
     mb.add_text("interfaces-direct-bases", "apischema/graphql/interfaces.py", "cls.__mro__[1:]", "cls.__bases__", "C19.R16", "ancestry")
     mb.add_text("neg-interfaces-comprehension", "apischema/graphql/interfaces.py", "    return list(filter(is_interface, cls.__mro__[1:]))\n", "    return [base for base in cls.__mro__ if base is not cls and is_interface(base)]\n", negative=True)
     G = "apischema/graphql/schema.py"
